@@ -21,11 +21,12 @@ tests="not run"
 if [ $builds = true ]; then
   (cd $WT && cargo nextest run --offline --no-fail-fast 2>&1 | grep -E "Summary|FAIL \[" | sort -u > /tmp/seedconf-tests.txt)
   fails=$(grep "FAIL \[" /tmp/seedconf-tests.txt | grep -v -E "interrupt_aborts_eval|sigint_aborts_eval|reftest_nrepl" | wc -l)
+  failnames=$(grep "FAIL \[" /tmp/seedconf-tests.txt | grep -v -E "interrupt_aborts_eval|sigint_aborts_eval|reftest_nrepl" | sed 's/.*garden //' | sort -u | tr '\n' ' ')
   flaky=$(grep "FAIL \[" /tmp/seedconf-tests.txt | grep -E "interrupt_aborts_eval|sigint_aborts_eval|reftest_nrepl" | wc -l)
   if [ $flaky -gt 0 ]; then
     (cd $WT && cargo nextest run --offline --no-fail-fast --retries 8 -j 1 interrupt_aborts_eval sigint_aborts_eval reftest_nrepl 2>&1 | grep -E "Summary" > /tmp/seedconf-flaky.txt)
   else echo "" > /tmp/seedconf-flaky.txt; fi
-  tests="$(grep Summary /tmp/seedconf-tests.txt | head -1 | sed 's/^ *//') | other failures: $fails | timing-sensitive nrepl failures: $flaky, re-run alone with retries: $(sed 's/^ *//' /tmp/seedconf-flaky.txt | head -1)"
+  tests="$(grep Summary /tmp/seedconf-tests.txt | head -1 | sed 's/^ *//') | other failures: $fails $failnames| timing-sensitive nrepl failures: $flaky, re-run alone with retries: $(sed 's/^ *//' /tmp/seedconf-flaky.txt | head -1)"
 fi
 d_orig=-1; d_mut=-1
 if [ -f $D/demo.sh ] && [ $builds = true ]; then
